@@ -40,10 +40,30 @@ def check_merge_fold(run, tree, qual, in_place):
         for f_ in OPTION_FIELDS:
             levels.append(("only %s set" % f_, {g: ("set" if g == f_ else None) for g in OPTION_FIELDS}))
             levels.append(("all but %s set" % f_, {g: (None if g == f_ else "set") for g in OPTION_FIELDS}))
+        # values spelled like the words the package itself tests options against ("image", "log", "sum", ...): a Layer that sets an option
+        # explicitly to such a word - also to the one that happens to be the default - keeps it
+        import ast as _ast
+        vocab = set()
+        for rel in ("core/layer.py", "plot/parser.py", "plot/render.py", "plot/map.py", "plot/histogram1d.py", "plot/histogram2d.py", "plot/wrappers.py"):
+            try:
+                mod = tree.module(rel)
+            except Exception:
+                continue
+            for n in _ast.walk(mod.tree):
+                if isinstance(n, _ast.Constant) and isinstance(n.value, str) and n.value.isidentifier() and len(n.value) <= 12:
+                    vocab.add(n.value)
+        for word in sorted(vocab)[:150]:
+            for f_ in OPTION_FIELDS:
+                levels.append(("%s=%r" % (f_, word), {g: (word if g == f_ else None) for g in OPTION_FIELDS}))
         for lv_name, lv in levels:
             for cv_name, cv in (("unset", None), ("set", "C")):
+                if "=" in lv_name and cv is None:
+                    continue
                 layer, ev = make_layer(tree, hooks, lv)
                 before = layer_state(layer)
+                if isinstance(lv, dict) and "=" in lv_name:
+                    # what the constructor was GIVEN is what counts (a constructor that normalises a spelling to "unset" loses the user's choice)
+                    before["fields"] = {f: lv[f] for f in OPTION_FIELDS}
                 call_kwargs = {f: (None if cv is None else "C:" + f) for f in OPTION_FIELDS}
                 call_kwargs.update({"a": "C", "b": "C"})
                 try:
